@@ -226,7 +226,7 @@ pub fn c18(thorough: bool, miri: bool, seed: u64, threads: usize) -> Json {
                         }
                     }
                     rep.class("reader-config-exhausted");
-                } else if i < cfgs.len() + 3 {
+                } else if i < cfgs.len() + 4 {
                     let size = (i - cfgs.len() + 1) as u16;
                     let alphabet = [Op::Add(4), Op::Add(3), Op::Add(0), Op::Remove(1), Op::RemoveRel(1), Op::Empty];
                     for len in 1..=maxlen + 1 {
@@ -244,9 +244,9 @@ pub fn c18(thorough: bool, miri: bool, seed: u64, threads: usize) -> Json {
                         }
                     }
                     rep.class("writer-config-exhausted");
-                } else if i == cfgs.len() + 3 && miri {
+                } else if i == cfgs.len() + 4 && miri {
                     // skipped under Miri
-                } else if i == cfgs.len() + 3 {
+                } else if i == cfgs.len() + 4 {
                     // many buffered pieces flushed at once (sizes around 1024 = IOV_MAX, and the u16 maximum)
                     for (size, adds) in [(1023u16, 1023usize), (1024, 1024), (1025, 1025), (1100, 1100), (2048, 2000), (4096, 4096), (65535, 3000)] {
                         for piece_len in [1usize, 6, 8] {
@@ -258,10 +258,10 @@ pub fn c18(thorough: bool, miri: bool, seed: u64, threads: usize) -> Json {
                         }
                     }
                     rep.class("writer-large-window");
-                } else if i < cfgs.len() + 4 + 64 {
+                } else if i < cfgs.len() + 5 + 64 {
                     // seeded random long sequences with large parameters
                     let mut r = Rng::new(seed.wrapping_mul(977).wrapping_add(i as u64));
-                    for _ in 0..(if miri { (i == cfgs.len() + 4) as usize * 2 } else { nrandom / 64 }) {
+                    for _ in 0..(if miri { (i == cfgs.len() + 5) as usize * 2 } else { nrandom / 64 }) {
                         let size = *r.pick(&[1u16, 2, 3, 7, 64, 1000, 65534, 65535]);
                         let chunk = *r.pick(&[1usize, 8, 9, 512, 1428, 65464]);
                         let reader = r.chance(600);
@@ -313,6 +313,6 @@ pub fn c18(thorough: bool, miri: bool, seed: u64, threads: usize) -> Json {
     rep.to_json(
         "C18",
         "a reference model (file bytes, read cursor, end-of-file flag, deque of pieces) is stepped in lock-step with the real tftpd::Window over a real file; after every operation the return value class (Ok/Err), len(), is_empty(), is_full() and get_elements() are compared, after empty() the file content; fill must hand out consecutive chunk-size pieces ending with the first short one and nothing after it; fill()==true implies full, fill()==false implies end of file. non-trivial = the sequence reached end of file or a full window; distinct = distinct (configuration, operation sequence).",
-        &format!("exhaustive: all operation sequences of length 1..{maxlen} over {{fill, remove(0), remove(1), remove(len), remove(len+1), add}} for size in {{1,2,3}} x chunk in {{1,2,4}} x 10 file lengths around chunk/window multiples (reader mode), and all sequences of length 1..{} over {{add(full), add(short), add(empty), remove(1), remove(len+1), empty}} for size 1..3 (writer mode). Random sequences up to 200 operations with size up to 65535 and chunk up to 65464 are seeded samples.", maxlen + 1),
+        &format!("exhaustive: all operation sequences of length 1..{maxlen} over {{fill, remove(0), remove(1), remove(len), remove(len+1), add}} for size in {{1,2,3}} x chunk in {{1,2,4}} x 10 file lengths around chunk/window multiples (reader mode), and all sequences of length 1..{} over {{add(full), add(short), add(empty), remove(1), remove(len+1), empty}} for size 1..4 (writer mode). Random sequences up to 200 operations with size up to 65535 and chunk up to 65464 are seeded samples.", maxlen + 1),
     )
 }
